@@ -221,6 +221,11 @@ func (vc *VC) intrinsic(st *State, name string, args []Val, c *ssa.CallCommon, r
 		vc.needStr()
 		vc.havocked[name] = true
 		return IntV(vc.fresh("fmtstr", "Int"), types.Typ[types.String]), true
+	case "strings.HasPrefix":
+		return BoolV(vc.hasPrefix(args[0].S, args[1].S)), true
+	case "sort.Slice":
+		vc.sortSlice(st, args[0], c)
+		return Val{K: KUnit}, true
 	case "sort.Search":
 		return vc.sortSearch(st, args[0], args[1], pos), true
 	case "math.Float64bits", "math.Float64frombits":
@@ -363,4 +368,44 @@ func (vc *VC) writerWrite(st *State, w Val, p Val) Val {
 	vc.heapSet(st, "G_wdata", "(Array Int (Array Int Int))", Sto(wd, w.S, na))
 	vc.heapSet(st, "G_wlen", "(Array Int Int)", Sto(wl, w.S, Add(cur, n)))
 	return Val{K: KTuple, Fs: []Val{IntV(n, tInt), IntV(err, tErr)}}
+}
+
+func (vc *VC) hasPrefix(s, p string) string {
+	vc.needStr()
+	vc.declareFun("strHasPrefix", []string{"Int", "Int"}, "Bool")
+	vc.axiom("hasPrefix_len", "(forall ((s Int) (p Int)) (! (=> (strHasPrefix s p) (<= (slen p) (slen s))) :pattern ((strHasPrefix s p))))")
+	return app("strHasPrefix", s, p)
+}
+
+// sortSlice: sort.Slice(x, less) permutes the elements of x in place; only "every element afterwards is one of the elements
+// before" is modelled (sortedness with respect to less is not).
+func (vc *VC) sortSlice(st *State, x Val, c *ssa.CallCommon) {
+	// the slice arrives boxed in an interface: recover it from the MakeInterface operand
+	var sv Val
+	var et types.Type
+	if c != nil {
+		if mi, ok := c.Args[0].(*ssa.MakeInterface); ok {
+			sv = vc.get(st, mi.X)
+			if sl, ok := mi.X.Type().Underlying().(*types.Slice); ok {
+				et = sl.Elem()
+			}
+		}
+	}
+	if sv.K != KSlice || et == nil {
+		panic(unsupported("sort.Slice on something that is not a slice value"))
+	}
+	vc.frameCheckRange(st, sv.Reg, sv.Off, Add(sv.Off, sv.Len))
+	names, sorts := elemHeapNames(et)
+	vc.n++
+	perm := fmt.Sprintf("perm!%d", vc.n)
+	vc.declareFun(perm, []string{"Int"}, "Int")
+	vc.define(fmt.Sprintf("(forall ((i Int)) (! (and (<= 0 (%s i)) (< (%s i) %s)) :pattern ((%s i))))", perm, perm, Ite(Gt(sv.Len, "0"), sv.Len, "1"), perm))
+	for i, nm := range names {
+		h := vc.heapGet(st, nm, arr2Sort(sorts[i]))
+		old := vc.name("old", arrSort(sorts[i]), Sel(h, sv.Reg))
+		na := vc.fresh("sorted", arrSort(sorts[i]))
+		vc.define(fmt.Sprintf("(forall ((i Int)) (! (= (select %s i) (ite (and (<= %s i) (< i (+ %s %s))) (select %s (+ %s (%s (- i %s)))) (select %s i))) :pattern ((select %s i))))",
+			na, sv.Off, sv.Off, sv.Len, old, sv.Off, perm, sv.Off, old, na))
+		vc.heapSet(st, nm, arr2Sort(sorts[i]), Sto(h, sv.Reg, na))
+	}
 }
